@@ -109,6 +109,35 @@ CHECKS = {
         "one SighashCache<&mut Transaction>, each answer compared with a fresh cache's and the cfg-guarded hook's fill state with the "
         "specification's after every step; random sequences of length <= 50 are validated by Trace_SighashCache.",
    note="transaction unchanged except through witness_mut; same spent outputs in all queries; hook exposes only three booleans."),
+ "C04": dict(
+   cat="model_checking", design="§4 C04",
+   technique="TLA+ model of confidential-transaction algebra over Z_5 with a step-by-step blinding machine (non-last outputs random, last "
+             "output solved), TLC-checked for all skeletons and all factor choices; every skeleton replayed through Transaction::blind "
+             "with real keys and proofs, balance equation recomputed over the real field",
+   text="TLC shows that for every arrangement of marked, unmarked, fee and zero-value outputs, every input mix and every random choice "
+        "the blinded transaction satisfies the verifier's equations; each skeleton is then blinded for real and checked: verification "
+        "against the spent outputs, unblinding of each marked output to the original asset / value and to the reported blinding factors, "
+        "commitments rebuilt from those factors, and the sum of v*abf+vbf over inputs and outputs compared modulo the group order.",
+   note="proof soundness is libsecp256k1-zkp's; Z_5 stands for the scalar field; enumerated skeleton family (<= 2 inputs, <= 5 outputs)."),
+ "C05": dict(
+   cat="model_checking", design="§4 C05",
+   technique="TLA+ transcription of the verifier check by check with proof tokens bound to (commitment, script, generator) / (generator, "
+             "domain); TLC checks that every tamper class at every position is rejected and tabulates all small explicit transactions; "
+             "tampers and table replayed on real blinded transactions",
+   text="TLC establishes at design level that the verifier's checks reject every single-location tamper of every verifying transaction "
+        "and gives the verdict for every small all-explicit transaction; the harness applies each listed tamper to the really blinded "
+        "transaction (with real proofs) and requires an error (of the named class where fixed), and compares the explicit table verdicts.",
+   note="proof corruption is sampled bit flips; the repository's real-network vectors lack their spent outputs and are not used."),
+ "C09": dict(
+   cat="model_checking", design="§4 C09",
+   technique="TLA+ state machine of the multi-party protocol (NonLast / Hop / LastPrefix / LastFinal) over Z_5, TLC-checked for all "
+             "scenarios, orders and factor choices; every structural schedule replayed on real PSETs with the projected state compared "
+             "after each step and the published scalars recomputed over the real field",
+   text="TLC explores every split of inputs among up to 3 parties, every last blinder, every order and hop placement and every factor "
+        "choice and checks balance, empty scalar list and full blinding at the end plus the carried-imbalance invariant in between; each "
+        "schedule is replayed with real keys and proofs: scalar count and blinded set after each step, the value of each published "
+        "scalar, final verification, unblinding and explicit proofs.",
+   note="every party has an output to blind (quantifier); Z_5 stands for the scalar field; 6 ownership templates."),
 }
 NA_PENDING = "check not built yet in this round (planned, see DESIGN.md §4)"
 
